@@ -17,7 +17,7 @@ type vfRange struct {
 	q10      int // q-value times 10
 }
 
-var vfOffers = []string{"a/b", "a/c", "x/y"}
+var vfOffers = []string{"ab/c", "a/b", "a/c", "x/y"} // "ab/c": a type that has another offer's type as a string prefix
 
 func vfRangeMatches(r vfRange, offer string) bool {
 	if r.typ == "*" && r.sub == "*" {
@@ -38,7 +38,11 @@ func VerifH_negotiate_type() {
 	accept := ""
 	for i := 0; i < n; i++ {
 		var r vfRange
-		switch vfChoice(5) {
+		switch vfChoice(6) {
+		case 5:
+			t := vfByte()
+			vfAssume(vfIsTokenByte(t) && t != '*')
+			r.typ, r.sub = string([]byte{t}), "*"
 		case 0:
 			r.typ, r.sub = "*", "*"
 		case 1:
@@ -94,7 +98,7 @@ func VerifH_negotiate_type() {
 		}
 	}
 	if any {
-		isOffer := got == "a/b" || got == "a/c" || got == "x/y"
+		isOffer := got == "a/b" || got == "a/c" || got == "x/y" || got == "ab/c"
 		vfCheck(isOffer, "an offer is admitted by the Accept header but the default was chosen")
 		vfCheck(admitted(got), "negotiated content type is not admitted by the Accept header")
 		vfCover("negotiated")
@@ -110,7 +114,7 @@ func VerifH_negotiate_raw() {
 	s := vfString(vfLen(vfBound(5, 6)))
 	h := http.Header{"Accept": []string{s}, "Accept-Encoding": []string{s}}
 	got := negotiateContentType(h, vfOffers, "d/e")
-	vfCheck(got == "a/b" || got == "a/c" || got == "x/y" || got == "d/e", "negotiated content type is neither an offer nor the default")
+	vfCheck(got == "a/b" || got == "a/c" || got == "x/y" || got == "ab/c" || got == "d/e", "negotiated content type is neither an offer nor the default")
 	enc := negotiateContentEncoding(h, []string{"gz", "br"})
 	vfCheck(enc == "gz" || enc == "br" || enc == "identity" || enc == "", "negotiated encoding is neither an offer nor identity")
 	vfCover("done")
